@@ -691,7 +691,15 @@ func runC16NextEnvelopeAfterFlush(c *Ctx) {
 				continue
 			}
 			n++
+			bufF := p.MustField("responseWriter", "buf")
 			isFlush := func(in ssa.Instruction) bool {
+				// the decision 'held back (nothing to flush yet) or flush' made at the call site
+				// instead of inside flushMessage (benign B8_r4): a test of the hold-back buffer
+				if iff, isIf := in.(*ssa.If); isIf {
+					if b, isB := iff.Cond.(*ssa.BinOp); isB && IsNilConst(b.Y) && LoadedField(b.X) == bufF {
+						return true
+					}
+				}
 				ci, ok := in.(ssa.CallInstruction)
 				if !ok {
 					return false
